@@ -239,6 +239,14 @@ for name in names:
             except Exception as e:
                 import traceback
                 wit.append({'key': f'{name}:{libname}:{b}', 'problems': [f'{type(e).__name__}: {e}'[:300], traceback.format_exc()[-400:]]})
+        # two requests under one id cannot both be answered under it: the batch is refused
+        cases += 1
+        try:
+            planning(deepcopy(net0), eqpt, {'path-request': [deepcopy(pool['served']), dict(deepcopy(pool['served2']), **{'request-id': 'served'})],
+                                           'synchronization': []})
+            wit.append({'key': f'{name}:{libname}:duplicate-ids', 'problems': ['two requests with the same id were accepted']})
+        except ValueError:
+            pass
         # a request sitting exactly on the margin-inclusive threshold is served (the verdict blocks only below it): the
         # CSV must say Pass? = True for it
         try:
